@@ -84,3 +84,12 @@ def relate_pairwise(ctx, e_code, e_spec):
         obl += [("sum%d.%s" % (k, n), f) for n, f in o]
         hyps.append(h)
     return obl, hyps
+
+
+def ge_term(ctx, a, witness):
+    """sum >= body(witness) if the body is >= 0 on the range and the witness index lies in the range"""
+    ra, ba = instantiate(ctx, a)
+    sub = [(v, zi(w)) for (v, lo, hi), w in zip(ra, witness)]
+    at_w = z3.substitute(ba, *sub)
+    in_w = z3.And(*[z3.And(zi(w) >= lo, zi(w) < hi) for (v, lo, hi), w in zip(ra, witness)])
+    return [("sigma.body-nonnegative", z3.Implies(in_range(ra), ba >= 0)), ("sigma.witness-in-range", in_w)], a >= at_w
